@@ -70,14 +70,21 @@ P_Step == /\ pstep' = pstep + 1
 
 \* A send by host src to host dst at host instant t.  lat = sampled latency
 \* (ms) or -1 when unknown / not sampled (held or dropped at send).
+\* A send on a link is the one moment (besides a step) at which the link hands
+\* over messages whose latency has elapsed: messages released earlier in this
+\* step can no longer be assumed to be still queued on the link.
+Touched(src, dst) ==
+    [i \in Ids |->
+        IF PairOf(msgs[i].src, msgs[i].dst) = PairOf(src, dst) /\ msgs[i].relClean
+        THEN [msgs[i] EXCEPT !.relClean = FALSE] ELSE msgs[i]]
 P_Send(src, dst, t, lat, cmin, cmax) ==
-    /\ msgs' = Append(msgs,
+    /\ msgs' = Append(Touched(src, dst),
           [src |-> src, dst |-> dst, sendTime |-> t, sendStep |-> pstep,
            sendNet |-> NetNow, lat |-> lat, cfgMin |-> cmin, cfgMax |-> cmax,
            explAtSend |-> explicit[<<src, dst>>],
            heldAtSend |-> heldDir[<<src, dst>>],
            heldEver   |-> heldDir[<<src, dst>>],
-           doomed |-> FALSE, relStep |-> 0, relAmbig |-> FALSE, unspec |-> FALSE,
+           doomed |-> FALSE, relStep |-> 0, relAmbig |-> FALSE, relClean |-> FALSE, unspec |-> FALSE,
            failAtSend |-> failOn])
     /\ UNCHANGED <<pstep, explicit, heldDir, failOn, rcvd, linksOk>>
 
@@ -141,7 +148,12 @@ P_Ctl(op, a, b, by) ==
                    THEN IF msgs[i].heldEver
                         THEN IF msgs[i].relStep = 0 THEN msgs[i]
                              ELSE IF msgs[i].relStep = pstep
-                                  THEN [msgs[i] EXCEPT !.unspec = TRUE] ELSE msgs[i]
+                                  THEN IF msgs[i].relClean
+                                       \* released, and nothing happened on the link since:
+                                       \* still in flight, so the new hold catches it again
+                                       THEN [msgs[i] EXCEPT !.relStep = 0, !.relClean = FALSE, !.relAmbig = FALSE]
+                                       ELSE [msgs[i] EXCEPT !.unspec = TRUE]
+                                  ELSE msgs[i]
                         ELSE IF msgs[i].explAtSend \/ msgs[i].doomed THEN msgs[i]
                         ELSE IF InFlightByTime(msgs[i]) THEN [msgs[i] EXCEPT !.heldEver = TRUE]
                         ELSE IF KnownLat(msgs[i]) THEN msgs[i]
@@ -152,16 +164,16 @@ P_Ctl(op, a, b, by) ==
               /\ explicit' = explicit
               /\ msgs' = [i \in Ids |->
                    IF InDirs(i, BothDirs(a, b)) /\ Pending(i) /\ msgs[i].heldEver /\ msgs[i].relStep = 0
-                   THEN [msgs[i] EXCEPT !.relStep = pstep, !.relAmbig = (by = "host")]
+                   THEN [msgs[i] EXCEPT !.relStep = pstep, !.relAmbig = (by = "host"), !.relClean = TRUE]
                    ELSE msgs[i]]
 
 \* SentRef::deliver on message id (only possible from the Sim handle).
 P_ManualDeliver(id) ==
     /\ msgs' = [msgs EXCEPT ![id] =
                    IF @.heldEver
-                   THEN IF @.relStep = 0 THEN [@ EXCEPT !.relStep = pstep] ELSE @
+                   THEN IF @.relStep = 0 THEN [@ EXCEPT !.relStep = pstep, !.relClean = TRUE] ELSE @
                    ELSE \* forcing a message that was merely in flight: arrives early
-                        [@ EXCEPT !.heldEver = TRUE, !.relStep = pstep]]
+                        [@ EXCEPT !.heldEver = TRUE, !.relStep = pstep, !.relClean = TRUE]]
     /\ UNCHANGED <<pstep, explicit, heldDir, failOn, rcvd, linksOk>>
 
 \* What Sim::links must show for pair p when inspected between steps.
